@@ -1336,6 +1336,68 @@ def r46(ctx, repo, henv, n, depths):
            f"depth {', '.join(map(str, deep))}")
 
 
+UTIL = "dclab/util.py"
+
+
+def r46_digest(ctx, repo, it):
+    """the parent-change witness compares digests (util.hashobj) of the
+    ancestors' filter arrays: the byte representation that is hashed must
+    depend on every element, also for datasets with more than a million
+    events"""
+    node = repo.func(UTIL, "obj2bytes")
+    ho = repo.func(UTIL, "hashobj")
+    ok = any(call_name(c) == "obj2bytes" for c in find_calls(
+        ho, name="obj2bytes")) and "hexdigest" in txt(ho)
+    if not ok:
+        raise AnalysisError("util.hashobj: digest of obj2bytes(obj) lost")
+    imp = any(isinstance(st, ast.ImportFrom) and (st.module or "").endswith(
+        "util") and any(a.name == "hashobj" for a in st.names)
+        for st in repo.tree(HFILT).body)
+    if not imp:
+        raise AnalysisError("hfilter.py: hashobj is not util.hashobj")
+    number = L.ModelType("numbers.Number", lambda o: isinstance(
+        o, (int, float)) and not isinstance(o, bool))
+    never = L.ModelType("never", lambda o: False)
+    env = it.env(UTIL, {
+        "np": L.NPModel(), "numbers": L.namespace("numbers", Number=number),
+        "pathlib": L.namespace("pathlib", Path=never),
+        "h5py": L.namespace("h5py", Dataset=never),
+        "Configuration": never, "ConfigurationDict": never,
+        "hashlib": L.Opaque("hashlib")})
+    fn = env.lookup("obj2bytes")
+    bad = None
+    cnt = 0
+    def wrap(data):
+        a = L.Arr(())
+        a.data = data          # no copy
+        return a
+    for size in (5, 70000, 1200000):
+        arr = [True] * size
+        ref = L.run(lambda: fn(wrap(arr)))
+        if ref[0] != "ok" or not isinstance(ref[1], bytes):
+            bad = (size, "-", ref)
+            break
+        where = {0, size // 3, size // 2, size - 1} if size > 10**6 else {
+            0, 1, size // 3, size // 2, size - 2, size - 1}
+        for pos in sorted(where):
+            arr[pos] = False
+            cnt += 1
+            res = L.run(lambda: fn(wrap(arr)))
+            arr[pos] = True
+            if res[0] != "ok" or res[1] == ref[1]:
+                bad = bad or (size, pos, res if res[0] != "ok" else
+                              ("ok", "the same bytes as without the change"))
+    ctx.ob("R4.6", bad is None,
+           f"the hashed byte representation of a boolean filter array "
+           f"changes with every element (sizes up to 1.2 million events, "
+           f"{cnt} single-element changes)" if bad is None else
+           f"obj2bytes of a filter array with {bad[0]} events: excluding "
+           f"event {bad[1]} gives {_res(bad[2])} - a filter change there "
+           f"leaves the parent-change witness of all hierarchy children "
+           f"unchanged", node=node, label="filter digest covers every event")
+
+
+
 def r47(ctx, repo, henv, n, depths, n_deep):
     hf_cls = henv.lookup("HierarchyFilter")
     it = henv.interp
@@ -1419,6 +1481,42 @@ def r47(ctx, repo, henv, n, depths, n_deep):
                f"{_res(bad_a[2])}; (status, manual, stored) = {bad_a[3]}, "
                f"specification {bad_a[4]}", node=anode,
                label=f"root indices applied [depth {depth}]")
+
+    # instance isolation: the state of one child's filter (created by its
+    # constructor, never overwritten by the analyser here) must not show up
+    # in the filter of an unrelated child
+    def fresh():
+        ch_ = build(n, ((True,) * n,))
+        return ch_[-1], hf_cls(ch_[-1])
+    bad_i = None
+    res = L.run(lambda: (fresh(), fresh(), fresh()))
+    if res[0] != "ok":
+        bad_i = ("construction of three independent filters", res, None)
+    else:
+        (ca, fa), (cb, fb), (cc_, fc) = res[1]
+        steps = [("child A excludes its event 0", ca, fa, 0, [0]),
+                 ("unrelated child B excludes its event 1", cb, fb, 1, [1]),
+                 ("child A again", ca, fa, 0, [0]),
+                 ("fresh child C without exclusions", cc_, fc, None, [])]
+        for what, c_, f_, k, want in steps:
+            if k is not None:
+                f_._attrs["manual"].data[k] = False
+            r_ = L.run(lambda: sorted(aslist(L.lookup_attr(
+                it, f_, "retrieve_manual_indices", None)(c_), "result")))
+            st_ = L.run(lambda: sorted(aslist(L.lookup_attr(
+                it, f_, "_man_root_ids", None), "_man_root_ids")))
+            if (r_ != ("ok", want) or st_ != ("ok", want)) and bad_i is None:
+                bad_i = (what, r_, want, st_)
+    ctx.ob("R4.7", bad_i is None,
+           "the stored root indices are per-instance state: exclusions of one "
+           "child never appear in an unrelated child (3 independent "
+           "hierarchies, 4 steps)" if bad_i is None else
+           f"{bad_i[0]}: retrieve_manual_indices returns {_res(bad_i[1])}"
+           + (f" (stored: {_res(bad_i[3])})" if len(bad_i) > 3 else "")
+           + f", specification {bad_i[2]} - manual exclusions leak between "
+           f"unrelated hierarchy children (state shared on the class / "
+           f"mutated in place)", node=rnode,
+           label="manual indices are per-instance state")
 
     # changed parent: retrieve keeps the stored indices and does not map,
     # apply refuses
@@ -1536,10 +1634,10 @@ def run(ctx):
              minimum=16)
     ctx.rule("R4.5", "manual indices handed over the filter re-creation; "
              "set_temporary_feature on a child", minimum=6)
-    ctx.rule("R4.6", "parent-change witness covers every ancestor",
-             minimum=2)
+    ctx.rule("R4.6", "parent-change witness covers every ancestor and "
+             "every event of their filters", minimum=3)
     ctx.rule("R4.7", "retrieve/apply of manual indices equal the root-index "
-             "set model", minimum=6)
+             "set model; per-instance state", minimum=7)
     r41(ctx, repo)
     r45a(ctx, repo)
     r42(ctx, repo)
@@ -1549,6 +1647,7 @@ def run(ctx):
     r43(ctx, repo, eenv, n)
     r45b(ctx, repo, tenv, 3)
     r46(ctx, repo, henv, 3, (1, 2, 3) if thorough else (1, 2))
+    r46_digest(ctx, repo, it)
     r47(ctx, repo, henv, 3, (1, 2), 3 if thorough else 2)
     ctx.stat("interpreter steps", it.steps)
 
@@ -1913,4 +2012,46 @@ MUTANTS = list(MUTANTS) + [
      ("            self._events[\"trace\"] = trdict\n",
       "            self._trace_items = trdict\n"
       "            self._events[\"trace\"] = ChildTrace()\n"), "R4.2"),
+]
+
+# round-3 seeded changes (/verif/seeded/C04_7, C04_8)
+MUTANTS = list(MUTANTS) + [
+    ("stored root indices as a shared class-level list (seeded)", HFILT,
+     [("class HierarchyFilter(Filter):\n",
+       "class HierarchyFilter(Filter):\n    _man_root_ids = []\n\n"),
+      ("        self._man_root_ids = []\n"
+       "        super(HierarchyFilter, self).__init__(rtdc_ds)",
+       "        super(HierarchyFilter, self).__init__(rtdc_ds)"),
+      ("            pall = sorted(list(set(pbool + pold)))",
+       "            pold += pbool\n            pall = sorted(set(pold))")],
+     "R4.7"),
+    ("reset keeps the shared list and only the constructor default is "
+     "class-level", HFILT,
+     [("class HierarchyFilter(Filter):\n",
+       "class HierarchyFilter(Filter):\n    _man_root_ids = []\n\n"),
+      ("        self._man_root_ids = []\n"
+       "        super(HierarchyFilter, self).__init__(rtdc_ds)",
+       "        super(HierarchyFilter, self).__init__(rtdc_ds)"),
+      ("            self._man_root_ids = sorted(all_idx)",
+       "            self._man_root_ids[:] = sorted(all_idx)")], "R4.7"),
+    ("large filter arrays hashed by their first and last block (seeded)",
+     UTIL,
+     ("    elif isinstance(obj, np.ndarray):\n        return obj.tobytes()\n",
+      "    elif isinstance(obj, np.ndarray):\n"
+      "        if obj.nbytes > 16 * 65536:\n"
+      "            flat = obj.reshape(-1)\n"
+      "            nel = max(1, 65536 // obj.itemsize)\n"
+      "            return (obj2bytes([str(obj.dtype), list(obj.shape)])\n"
+      "                    + flat[:nel].tobytes() + flat[-nel:].tobytes())\n"
+      "        return obj.tobytes()\n"), "R4.6"),
+]
+
+TWINS = list(TWINS) + [
+    ("stored root indices: class-level None default, list per instance",
+     HFILT,
+     [("class HierarchyFilter(Filter):\n",
+       "class HierarchyFilter(Filter):\n    _man_root_ids = None\n\n")]),
+    ("hidden-set union without the temporary list", HFILT,
+     ("            pall = sorted(list(set(pbool + pold)))",
+      "            pall = sorted(set(pbool) | set(pold))")),
 ]
